@@ -1302,6 +1302,15 @@ def gen_nid(rng, n_random):
             steps.append({"op": "build", "h": "r", "kt": kt, "signer": name, "calls": [{"m": "udp4", "port": rng.randrange(65536)}]})
             steps.append({"op": "call", "h": "r", "m": "set_tcp4", "args": {"port": 1}, "signer": name})
             steps.append({"op": "decode", "kts": KT_ALL, "input": {"from": "r"}, "tag": "nid_edge"})
+    # records that carry both kinds of key entry: the id is that of the key the record is signed with (secp256k1 first)
+    for i, v in enumerate(scal[:12]):
+        name = "k:" + v.to_bytes(32, "big").hex()
+        other = KEYS[ED_SIGNERS[i % len(ED_SIGNERS)]]["pk"]
+        for kt in ("k256", "libsecp", "comb"):
+            steps.append({"op": "build", "h": "r", "kt": kt, "signer": name, "calls": [{"m": "add_value", "key": B("ed25519"), "val": {"ty": "bytes", "v": other}}]})
+            steps.append({"op": "decode", "kts": KT_ALL, "input": {"from": "r"}, "tag": "nid_both"})
+            steps.append({"op": "call", "h": "r", "m": "set_udp4", "args": {"port": 2}, "signer": name})
+            steps.append({"op": "decode", "kts": KT_ALL, "input": {"from": "r"}, "tag": "nid_both"})
     for _ in range(n_random):
         name = "e:" + bytes(rand_bytes(rng, 32)).hex()
         for kt in ("ed", "comb"):
